@@ -106,6 +106,7 @@ type harnessEvidence struct {
 	Candidates      map[string]int `json:"candidate_violations"`
 	Confirmed       int            `json:"confirmed_violations"`
 	Unconfirmed     int            `json:"unconfirmed_models"`
+	WitnessOK       int            `json:"abandoned_paths_witnessed_natively_ok,omitempty"`
 	Known           int            `json:"known_findings_hit"`
 	Conformance     int            `json:"conformance_replays_ok"`
 	ConformanceBad  int            `json:"conformance_replays_mismatch"`
@@ -258,6 +259,30 @@ func runProperty(prop, tier string) int {
 			case "assert":
 				confirmed = len(res.Failed) > 0
 				labels = res.Failed
+			case "unsupported":
+				// a path the engine abandoned: one concrete input down that path, run on
+				// the real build; a failure there is a violation found by the witness
+				var failed []string
+				for _, f := range res.Failed {
+					keep := len(h.Only) == 0
+					for _, pre := range h.Only {
+						if strings.HasPrefix(f, pre) {
+							keep = true
+						}
+					}
+					if keep {
+						failed = append(failed, f)
+					}
+				}
+				switch {
+				case res.Panic != "":
+					confirmed, labels = true, []string{"crashes natively: " + res.Panic}
+				case len(failed) > 0:
+					confirmed, labels = true, failed
+				default:
+					ev.WitnessOK++
+					continue
+				}
 			case "panic":
 				confirmed = res.Panic != "" || res.Timeout
 				labels = []string{"panic"}
